@@ -457,6 +457,23 @@ def generate():
     info["payload_flag"] = table("tag", "payload_flag_of_string", string_to_tag, "parser/attributes/payload.rs::<PayloadFieldParamasParse>::parse#m0",
                                  "payload_flag_of_string", r"^(\(\s*\))$",
                                  post=lambda t: t.replace('Some "()"', 'Some "raw"').replace('Some "( )"', 'Some "raw"'))
+    if "payload_flag_of_string" in info["errors"]:
+        # the parser may compare the identifier with its only accepted literal instead of matching on it
+        # (`if option != "raw" { return Err(..) }`): same table, another spelling
+        try:
+            src = open(os.path.join(common.REPO, "sylvia-derive", "src", "parser", "attributes", "payload.rs")).read()
+            m = re.search(r"impl\s+Parse\s+for\s+PayloadFieldParam\s*\{(.*?)\n\}", src, flags=re.S)
+            body = m.group(1) if m else ""
+            lits = re.findall(r'(\w+)\s*!=\s*"(\w+)"\s*\{\s*return\s+Err', body)
+            if len(lits) == 1 and len(re.findall(r'"\w+"', re.sub(r'"[^"]*\\n[^"]*"', "", body))) >= 1 and "match" not in body:
+                lit = lits[0][1]
+                parts[-1] = ("Definition payload_flag_of_string (s : string) : option string :=\n  if s =? %s then Some \"raw\" else\n  None.\n"
+                             % common.coq_string(lit)) if lit == "raw" else parts[-1]
+                if lit == "raw":
+                    del info["errors"]["payload_flag_of_string"]
+                    info["payload_flag"] = [(lit, "raw")]
+        except OSError:
+            pass
     info["custom_key"] = table("tag", "custom_key_of_string", string_to_tag, "parser/attributes/custom.rs::<CustomasParse>::parse#m0",
                                "custom_key_of_string", r"custom\s*\.\s*(\w+)\s*=")
     info["msg_arg"] = table("tag", "msg_arg_of_string", string_to_tag, "parser/attributes/msg.rs::<ArgumentParserasParse>::parse#m0",
